@@ -35,7 +35,7 @@ From SF Require Import Unsized.Proofs.Layout Unsized.Proofs.Observe Unsized.Proo
   Unsized.Proofs.NotifyInside Unsized.Proofs.Resize Unsized.Proofs.GenOps Unsized.Proofs.History.
 From SF Require Import Unsized.Run Unsized.Proofs.Init Unsized.Proofs.History2 Unsized.Proofs.ExecTie.
 From SF Require Import Unsized.Proofs.ExecTie2 Unsized.Proofs.Keyed Unsized.Proofs.NotifyInside2 Unsized.Proofs.SetData.
-From SF Require Import Unsized.Proofs.History3 Unsized.Proofs.History4 Unsized.Proofs.Enums Unsized.Proofs.InitKinds.
+From SF Require Import Unsized.Proofs.History3 Unsized.Proofs.History4 Unsized.Proofs.Enums Unsized.Proofs.InitKinds Unsized.Proofs.StringSet.
 
 (* one operation: same success, and the new machine state represents the owned model's new value *)
 Theorem C01_flat_step_refines :
@@ -202,7 +202,7 @@ Theorem C01_all_ops_run_refines :
   forall ovf t h v s top pi0 v',
     RepF pi0 t v s top -> m_refuse s <> 1 -> orunX (m_cap s) t v h = Some v' ->
     exists s' top' pi', mrunX ovf t s top h = Ok (s', top') /\ RepF pi' t v' s' top' /\ m_cap s' = m_cap s.
-Proof. exact xrun_refines. Qed.
+Proof. exact History2.xrun_refines. Qed.
 
 (* the dispatcher of the extracted runner (Run.exec, what the correspondence check executes) returns exactly what the
    descent followed by the operation returns *)
@@ -393,6 +393,31 @@ Theorem C01_dispatcher_refines_initializers :
     exists s' top' pi', exec fuel ovf t s top [] (enc_kop t v o) = Ok (s', top', obs) /\
                         RepF pi' t v' s' top' /\ m_cap s' = m_cap s /\ m_refuse s' = m_refuse s.
 Proof. exact exec_k_refines. Qed.
+
+(* UnsizedString (StringSet.v): `set(s)` = clear + push_all on the byte list behind the string.  The owned model assigns
+   the new bytes; a string that no longer fits its length prefix or the allocation leaves the string CLEARED and reports
+   the error (the composite is not atomic - accepted: the bytes stay canonical).  `sop` adds it to the operations of
+   C01_run_refines_with_initializers: ONE history theorem over every operation of the family, and the same through the
+   dispatcher the extracted runner executes. *)
+Theorem C01_string_set_refines :
+  forall ovf t v s top pi0 pi bs v',
+    RepF pi0 t v s top -> m_refuse s <> 1 -> ostepStr (m_cap s) t v pi bs = Some v' ->
+    exists s' top' pi', mstepStr ovf t s top pi bs = Ok (s', top', []) /\ RepF pi' t v' s' top' /\
+                        m_cap s' = m_cap s /\ m_refuse s' = m_refuse s.
+Proof. exact string_set_refines. Qed.
+
+Theorem C01_run_refines_every_operation :
+  forall ovf t h v s top pi0 v' obss,
+    RepF pi0 t v s top -> m_refuse s <> 1 -> orunS (m_cap s) t v h = Some (v', obss) ->
+    exists s' top' pi', mrunS ovf t s top h = Ok (s', top', obss) /\ RepF pi' t v' s' top' /\ m_cap s' = m_cap s.
+Proof. exact srun_refines. Qed.
+
+Theorem C01_dispatcher_run_refines :
+  forall fuel ovf t h v s top pi0 v' obss,
+    RepF pi0 t v s top -> m_refuse s <> 1 -> Forall snew h -> Forall (fun o => (length (sfocus o) < fuel)%nat) h ->
+    orunS (m_cap s) t v h = Some (v', obss) ->
+    exists s' top' pi', xrunS fuel ovf (m_cap s) t v s top h = Ok (s', top', obss) /\ RepF pi' t v' s' top' /\ m_cap s' = m_cap s.
+Proof. exact StringSet.xrun_refines. Qed.
 
 Example C01_nonvacuous_enums :
   (* an enum inside a list of unsized elements inside a struct: switch to a data variant, insert into the list inside its
